@@ -22,6 +22,11 @@
 (*              built from bytes of two messages)                                 *)
 (*   raises     well-formed, delivered, but its handler fails: as ok; the failure   *)
 (*              stays inside this one message                                      *)
+(*   closes     well-formed, delivered, and its handler gives up on the connection  *)
+(*              (disconnects it itself, as the handshake does on a reply it did not *)
+(*              expect): delivered, then THIS connection is closed - from inside a  *)
+(*              handler, not by the loop; the loop and the other connections must   *)
+(*              not notice anything else                                            *)
 (*   junk       randomly mutated / random bytes: nothing is promised for THIS         *)
 (*              connection from here on (any outcome, framing counts as lost);     *)
 (*              everything else - termination, the loop, other connections - is     *)
@@ -35,7 +40,7 @@
 EXTENDS Naturals, Sequences, FiniteSets, TLC
 
 CONSTANTS Conns, Streams    \* Streams: set of functions [Conns -> Seq(class)]
-Classes == {"ok", "raises", "tolerable", "bad", "badlen", "short", "nolen", "partial", "junk"}
+Classes == {"ok", "raises", "closes", "tolerable", "bad", "badlen", "short", "nolen", "partial", "junk"}
 Good == {"ok", "raises"}
 
 VARIABLES stream,      \* [Conns -> Seq(class)]
@@ -71,7 +76,7 @@ Eof(c) ==
 
 \* decoder outcomes for the next unresolved message of c
 Deliver(c) ==
-  /\ open[c] /\ sync[c] /\ Pending(c) /\ Cls(c) \in {"ok", "raises", "tolerable", "badlen", "junk"}
+  /\ open[c] /\ sync[c] /\ Pending(c) /\ Cls(c) \in {"ok", "raises", "closes", "tolerable", "badlen", "junk"}
   /\ delivered' = [delivered EXCEPT ![c] = Append(@, nxt[c])]
   /\ nxt' = [nxt EXCEPT ![c] = @ + 1]
   /\ sync' = [sync EXCEPT ![c] = Cls(c) \notin {"badlen", "junk"}]    \* exactly the declared bytes: now out of step
@@ -92,6 +97,8 @@ Close(c) ==
   /\ \/ (Pending(c) /\ Cls(c) \notin Good)       \* a message that cannot be processed
      \/ ~sync[c]                                \* or the stream is already out of step
      \/ eof[c]                                  \* or the peer is gone
+     \/ (\E k \in 1..Len(delivered[c]) :          \* or the handler of a delivered message gave the connection up
+            delivered[c][k] # 0 /\ stream[c][delivered[c][k]] = "closes")     \* (messages already read may still follow it)
   /\ open' = [open EXCEPT ![c] = FALSE]
   /\ UNCHANGED <<stream, fed, nxt, sync, eof, delivered, errors, alive>>
 \* out of step: whatever the bytes look like, anything may come out - on this connection only
@@ -117,7 +124,8 @@ InOrder == \A c \in Conns : sync[c] =>
              \A i \in 1..Len(delivered[c]) : \A j \in 1..Len(delivered[c]) :
                  i < j => delivered[c][i] < delivered[c][j]
 NoOkSkipped == \A c \in Conns : \A i \in 1..(nxt[c] - 1) :
-                 (stream[c][i] \in Good /\ (\A j \in 1..i : stream[c][j] \in {"ok", "raises", "tolerable", "bad"}))
+                 (stream[c][i] \in Good \cup {"closes"}
+                    /\ (\A j \in 1..(i - 1) : stream[c][j] \in {"ok", "raises", "tolerable", "bad"}))
                     => \E k \in 1..Len(delivered[c]) : delivered[c][k] = i
 \* a message whose length cannot be trusted at all is never skipped over
 NoLenNeverSkipped == \A c \in Conns : \A i \in 1..(nxt[c] - 1) : stream[c][i] # "nolen"
